@@ -44,7 +44,19 @@ class FalsyIt(It):
         return 0
 
 
-ITEM_CLASSES = {"plain": It, "equal": EqIt, "falsy": FalsyIt}
+class SameIdIt(It):
+    """distinct parts that carry the same id (a part number rather than a serial number)"""
+
+    def __init__(self, id, k=None):
+        super().__init__(id, k)
+        self.serial = id
+        self.id = "part"
+
+    def __repr__(self):
+        return f"It({self.serial})"
+
+
+ITEM_CLASSES = {"plain": It, "equal": EqIt, "falsy": FalsyIt, "same-id": SameIdIt}
 
 
 class Tok:
@@ -468,7 +480,7 @@ class Harness:
         if self.two_procs:
             fl.append("2p")
         if self.item_kind != "plain":
-            fl.append({"equal": "eq", "falsy": "falsy"}[self.item_kind])
+            fl.append({"equal": "eq", "falsy": "falsy", "same-id": "same-id"}[self.item_kind])
         return f"{label}@{self.ad.name}[{','.join(fl)}]"
 
     def fail(self, label, info=None):
